@@ -14,6 +14,12 @@ TRUST = ("trusted base: CPython, torch/numpy/hypothesis as installed, the harnes
 
 # id -> (level, technique, text, design_ref, note)
 REG = {
+    "C02": ("exploration", "Hypothesis-generated recursive dataset stacks vs. index-map composition computed from the spec",
+            "random stacks (depth<=5, deep facet <=8) of KDSubset / shipped subset wrappers / KDConcatDataset (balanced or not) / "
+            "KDWrappers over token roots; every valid positive and negative index and three items compared with the composed map; "
+            "len, getall_* vs per-sample, getall helper functions (list/ndarray/tensor roots, slow path), introspection and "
+            "dispose on linear chains",
+            "DESIGN.md §3 C02", TRUST),
     "C04": ("exploration", "Hypothesis-generated geometries + bounded-exhaustive sweep vs. statement-derived reference model",
             "random search (4k quick / 80k thorough configs) plus complete enumeration of all geometries N<=6 (quick) / N<=8 "
             "(thorough) x B x drop_last x drop_last_batch_size x budget kind x budget<=3 epochs; each compared item-by-item "
